@@ -59,9 +59,13 @@ func (c12) Gen(r *rand.Rand, tier string, run int) *core.Case {
 	}
 	if c.Batch == "stall" {
 		c.Ops = append(c.Ops, core.Op{Kind: "flood", Actor: 300, X: int64(r.Uint64() >> 2)})
+	} else if r.IntN(40) == 0 {
+		// entries of the directory that are, together, more than a reply holds
+		at := r.IntN(len(c.Ops) + 1)
+		c.Ops = append(c.Ops[:at], append([]core.Op{{Kind: "bloat", Actor: 300, X: int64(r.Uint64() >> 2)}}, c.Ops[at:]...)...)
 	}
 	for _, op := range c.Ops {
-		if op.Kind == "nested" && c.Batch != "stall" {
+		if (op.Kind == "nested" || op.Kind == "bloat") && c.Batch != "stall" {
 			// megabyte frames: let them through in large pieces
 			c.Net.Capacity, c.Net.ReadMode = 0, "greedy"
 		}
@@ -81,6 +85,9 @@ type c12state struct {
 	sent        int
 	focus       int
 	raw         *Raw
+	bloated     int // oversized entries the hostile client got registered and ready
+	bloatIDs    []uint32
+	listingSize int // size of the directory's answer to services() after a failed probe, as read by a peer without a size limit
 }
 
 func (c12) Run(c *core.Case, env *core.Env) {
@@ -147,6 +154,7 @@ func (c12) Run(c *core.Case, env *core.Env) {
 		return
 	}
 	st.raw = raw
+	raw.MaxKeep = 1 << 16
 	finale := c.P("finale", 0)
 	if finale == 1 {
 		raw.mu.Lock()
@@ -177,6 +185,46 @@ func (c12) Run(c *core.Case, env *core.Env) {
 			break
 		}
 		r := rand.New(rand.NewPCG(uint64(op.X), uint64(i)))
+		if op.Kind == "bloat" {
+			// two services with names of several megabytes each (a frame
+			// the server accepts), registered and declared ready: together
+			// they are more than one reply can carry
+			for k := 0; k < 2 && alive; k++ {
+				var b ref.Buf
+				b.Str(fmt.Sprintf("big%d", k) + strings.Repeat("x", 5500000+r.IntN(1000)))
+				b.U32(0)
+				b.Str("machine")
+				b.U32(42)
+				b.U32(1)
+				b.Str("tcp://evil:1")
+				b.Str("session")
+				b.Str("uid")
+				id := raw.NextID()
+				if err := raw.Send(ref.NewFrame(ref.Call, st.dirID, 1, 102, id, b.Bytes())); err != nil {
+					alive = false
+					break
+				}
+				st.sent++
+				f, ok := raw.WaitID(id)
+				if !ok || f.Type != ref.Reply || len(f.Payload) != 4 {
+					break
+				}
+				var rb ref.Buf
+				rb.U32(uint32(f.Payload[0]) | uint32(f.Payload[1])<<8 | uint32(f.Payload[2])<<16 | uint32(f.Payload[3])<<24)
+				id = raw.NextID()
+				if err := raw.Send(ref.NewFrame(ref.Call, st.dirID, 1, 104, id, rb.Bytes())); err != nil {
+					alive = false
+					break
+				}
+				st.sent++
+				if f, ok := raw.WaitID(id); ok && f.Type == ref.Reply {
+					env.Probe("oversized-entries-registered")
+					st.bloated++
+					st.bloatIDs = append(st.bloatIDs, binary.LittleEndian.Uint32(rb.Bytes()))
+				}
+			}
+			continue
+		}
 		for _, b := range c12frames(st, op.Kind, r) {
 			if err := raw.SendBytes(b); err != nil {
 				alive = false
@@ -243,6 +291,33 @@ func (c12) Run(c *core.Case, env *core.Env) {
 				st.listed, st.listedOK = listed, true
 			}
 		}()
+	}
+	if err != nil && st.bloated >= 2 {
+		// how large is the answer the directory gives to services()? asked by
+		// a peer that reads the frame whatever its size. The oversized
+		// entries are then unregistered (the run is over: it frees them).
+		zzsim.SetNode("harness")
+		aud, e := DialRaw(env, "auditor", 401)
+		if e == nil {
+			if ok, _ := aud.Auth("u", "p"); ok {
+				aud.mu.Lock()
+				aud.MaxKeep = 16
+				aud.mu.Unlock()
+				id := aud.NextID()
+				if aud.Send(ref.NewFrame(ref.Call, st.dirID, 1, 101, id, nil)) == nil {
+					if f, ok := aud.WaitID(id); ok && f.Type == ref.Reply {
+						st.listingSize = int(f.Size)
+					}
+				}
+				for _, big := range st.bloatIDs {
+					id := aud.NextID()
+					if aud.Send(ref.NewFrame(ref.Call, st.dirID, 1, 103, id, le32(big))) == nil {
+						aud.WaitID(id)
+					}
+				}
+			}
+			aud.Conn.Close()
+		}
 	}
 }
 
@@ -586,7 +661,16 @@ func (c12) Check(c *core.Case, env *core.Env, res zzsim.Result, v *core.Verdict)
 			}
 		}
 		if h.Kind == "probe-directory" && !h.OK {
-			bad("directory-refuses", "the directory no longer answers a fresh client: %s", h.Err)
+			if st.bloated >= 2 && st.listingSize > 10<<20 {
+				// cause-specific: the hostile client had two entries of more
+				// than five megabytes each registered and declared ready, and
+				// the directory's answer to services() is, as measured by a
+				// peer that reads frames of any size, more than a message
+				// may carry: no client of the library can receive it
+				bad("directory-refuses/listing-larger-than-a-message", "the hostile client registered %d entries with names of 5.5 MB; the directory's answer to services() no longer fits a message (%d bytes) and a fresh client's connection refuses it: %s", st.bloated, st.listingSize, h.Err)
+			} else {
+				bad("directory-refuses", "the directory no longer answers a fresh client: %s", h.Err)
+			}
 		}
 		if h.Kind == "probe-directory" && h.OK {
 			if !st.listedOK {
